@@ -25,7 +25,8 @@ RULE = ("sort/sort_kv: lists, f8 and i8 arrays and numpy.memmap files of length 
         "StringIO, consumed completely or only k items. pmap: nproc 1..8, chunksize 1..len+1, list/tuple/"
         "generator items, per-item sleep 0..20 ms (decreasing, random, first-slow). Non-trivial: sort input "
         "with ties and length>=3; isplit with a remainder; a length-less iterable; pmap with >=2 workers and "
-        "strictly decreasing latencies. Distinct = distinct case JSON.")
+        "strictly decreasing latencies. Distinct = distinct case JSON."
+        " Also: random sort inputs of 513..5000 elements; a second pmap call after module state read by the task changed.")
 ASSUMPTIONS = [
     "sort inputs are finite numbers (no NaN: the statement speaks of a non-decreasing result) of length <= 400 "
     "(the recursive quicksort inherits Python's recursion limit by design)",
